@@ -209,6 +209,31 @@ pub fn fam_metric(o: &mut Rep, seed: u64) {
         let (d0, d1) = (sp.distance(&a, b), sp.distance(&SO3State::new(-a.x, -a.y, -a.z, -a.w), b));
         if (d0 - d1).abs() > 1.0e-9 { o.report("metric", seed, format!("C09 SO3: d(q,b) = {} but d(-q,b) = {}", d0, d1)); }
     } }
+    // nearly identical rotations (the relative angle is known by construction): small angles are not snapped to zero
+    let qmul = |a: &SO3State, b: &SO3State| SO3State::new(
+        a.w * b.x + a.x * b.w + a.y * b.z - a.z * b.y,
+        a.w * b.y - a.x * b.z + a.y * b.w + a.z * b.x,
+        a.w * b.z + a.x * b.y - a.y * b.x + a.z * b.w,
+        a.w * b.w - a.x * b.x - a.y * b.y - a.z * b.z);
+    for base in [SO3State::identity(), unit_q(1.0, 2.0, 3.0, 4.0), unit_q(-0.5, 0.7, 0.2, -0.4), unit_q(1.0, 0.0, 0.0, 1.0e-3)] {
+        for &th in &[5.0e-2, 1.0e-3, 8.0e-5, 6.0e-5, 2.0e-5, 3.0e-6] {
+            for ax in [(1.0, 0.0, 0.0), (0.0, 1.0, 0.0), (0.6, 0.0, 0.8)] {
+                let (sn, cs) = ((th * 0.5f64).sin(), (th * 0.5f64).cos());
+                let b = qmul(&base, &SO3State::new(ax.0 * sn, ax.1 * sn, ax.2 * sn, cs));
+                for b in [b.clone(), SO3State::new(-b.x, -b.y, -b.z, -b.w)] {
+                    for d in [sp.distance(&base, &b), sp.distance(&b, &base)] {
+                        if !((d - th).abs() <= 1.0e-7 + 1.0e-6 * th) { o.report("metric", seed, format!("C09 SO3: two rotations {:e} rad apart (base ({:?},{:?},{:?},{:?}), axis {:?}) are at distance {:e}", th, base.x, base.y, base.z, base.w, ax, d)); }
+                    }
+                }
+            }
+        }
+    }
+    // ... and nearly identical angles / points
+    let so2 = SO2StateSpace::new(None).unwrap();
+    for &a in &[0.0, 1.0, -3.0, PI] { for &th in &[1.0e-3, 6.0e-5, 3.0e-6, 1.0e-9] {
+        let d = so2.distance(&SO2State { value: a }, &SO2State { value: a - th });
+        if !((d - th).abs() <= 1.0e-12 + 1.0e-6 * th) { o.report("metric", seed, format!("C09 SO2: angles {:?} and {:?} - {:e} are at distance {:e}", a, a, th, d)); }
+    } }
     compound_kits(o, seed, true);
 }
 pub fn fam_interp(o: &mut Rep, seed: u64) {
